@@ -94,3 +94,106 @@ def obligations():
         ok, detail = False, repr(e)[:300]
     res.append(("count_agreement_patterns_sql: GROUP BY all gamma columns, count(*)", ok, detail))
     return res
+
+
+# ------------------------------------------------------------------------------------------------
+# Coq-decided part: the aggregated expressions and the null literal, as Gallina terms
+# ------------------------------------------------------------------------------------------------
+def rexp(e):
+    """sqlglot scalar expression over (match_probability, agreement_pattern_count) -> Gallina `rexp`"""
+    if isinstance(e, E.Paren):
+        return rexp(e.this)
+    if isinstance(e, E.Column):
+        n = e.name.lower()
+        if n == "match_probability":
+            return "RP"
+        if n == "agreement_pattern_count":
+            return "RW"
+        raise ValueError("column " + n)
+    if isinstance(e, E.Literal) and not e.is_string:
+        from fractions import Fraction
+        f = Fraction(e.this)
+        return f"(RC (Qmake ({f.numerator})%Z {f.denominator}%positive))"
+    if isinstance(e, E.Mul):
+        return f"(RMul {rexp(e.this)} {rexp(e.expression)})"
+    if isinstance(e, E.Sub):
+        return f"(RSub {rexp(e.this)} {rexp(e.expression)})"
+    raise ValueError("scalar expression " + type(e).__name__)
+
+
+def sum_arg(e):
+    if isinstance(e, E.Alias):
+        e = e.this
+    if not isinstance(e, E.Sum):
+        raise ValueError("not a sum(): " + e.sql())
+    return e.this
+
+
+COQ_HEADER = """From Coq Require Import String Ascii.
+From Coq Require Import List ZArith QArith Qreduction Bool Arith Lqa.
+From Splinkv Require Import Model.EM.
+Import ListNotations.
+Open Scope Q_scope.
+(* scalar expressions of the M-step SQL over one __splink__df_predict row *)
+Inductive rexp := RP | RW | RC (q : Q) | RMul (a b : rexp) | RSub (a b : rexp).
+Fixpoint reval (e : rexp) (r : srow) : Q :=
+  match e with RP => sp r | RW => sw r | RC q => q | RMul a b => reval a r * reval b r | RSub a b => reval a r - reval b r end.
+"""
+
+
+def coq_obligations(ctx):
+    """Each aggregated expression extracted from the emitted SQL is turned into a Gallina term and
+    Coq decides, for ALL rows, that it is the summand the model uses (mterm, uterm, sw);
+    on the row-wise path (weight literal 1) for all rows of weight 1."""
+    from splink.internals.expectation_maximisation import (
+        compute_new_parameters_sql,
+        compute_proportions_for_new_parameters_sql,
+    )
+    comps = [SimpleNamespace(_gamma_column_name="gamma_a", output_column_name="a")]
+    res = []
+    for ewtf in (False, True):
+        hyp = "" if ewtf else "sw r == 1 -> "
+        pre = "intros r." if ewtf else "intros r H."
+        rw = "" if ewtf else " rewrite H."
+        try:
+            sels = selects_of(sqlglot.parse_one(compute_new_parameters_sql(ewtf, comps), read="duckdb"))
+            by = {x.alias_or_name.lower(): x for x in sels[0].expressions}
+            em, eu = rexp(sum_arg(by["m_count"])), rexp(sum_arg(by["u_count"]))
+            lam = {x.alias_or_name.lower(): x for x in sels[-1].expressions}["m_count"].this
+            if not isinstance(lam, E.Div):
+                raise ValueError("lambda is not a quotient of sums")
+            ln, ld = rexp(sum_arg(lam.this)), rexp(sum_arg(lam.expression))
+            text = COQ_HEADER + f"""
+Lemma m_count_summand : forall r, {hyp}reval {em} r == mterm r.
+Proof. {pre} unfold mterm. cbn [reval].{rw} ring. Qed.
+Lemma u_count_summand : forall r, {hyp}reval {eu} r == uterm r.
+Proof. {pre} unfold uterm. cbn [reval].{rw} ring. Qed.
+Lemma lambda_numerator : forall r, {hyp}reval {ln} r == mterm r.
+Proof. {pre} unfold mterm. cbn [reval].{rw} ring. Qed.
+Lemma lambda_denominator : forall r, {hyp}reval {ld} r == sw r.
+Proof. {pre} cbn [reval].{rw} ring. Qed.
+"""
+            ok, out = ctx.coqc_text(f"C03_sql_ob_{int(ewtf)}", text)
+            detail = "" if ok else out[-500:]
+        except Exception as e:
+            ok, detail = False, repr(e)[:300]
+        res.append((f"[decided in Coq] summands of compute_new_parameters_sql(estimate_without_term_frequencies={ewtf}) = mterm / uterm / sw of Model/EM.v for all rows", ok, detail))
+    try:
+        sels = selects_of(sqlglot.parse_one(compute_proportions_for_new_parameters_sql("t"), read="duckdb"))
+        where = sels[0].args["where"].this
+        lits = [x for x in where.find_all(E.NEQ) if norm(x.this) == "comparison_vector_value"]
+        if len(lits) != 1:
+            raise ValueError("null-level filter not found")
+        val = int(lits[0].expression.sql())
+        text = COQ_HEADER + f"""
+(* WHERE comparison_vector_value <> {val}: the same literal props_tbl / nonnull filter on *)
+Lemma null_literal : forall i sc, filter (fun x => negb (Z.eqb (cr_v x) ({val}))) (counts_tbl i sc)
+                                 = filter (fun x => negb (Z.eqb (cr_v x) (-1))) (counts_tbl i sc).
+Proof. intros. reflexivity. Qed.
+"""
+        ok, out = ctx.coqc_text("C03_sql_ob_null", text)
+        detail = "" if ok else out[-500:]
+    except Exception as e:
+        ok, detail = False, repr(e)[:300]
+    res.append(("[decided in Coq] null-level literal of compute_proportions_for_new_parameters_sql = the literal of props_tbl", ok, detail))
+    return res
